@@ -20,9 +20,12 @@ import (
 	"math"
 	"os"
 	"reflect"
+	"runtime"
 	"sort"
 	"strconv"
 	"strings"
+	"sync"
+	"sync/atomic"
 
 	"github.com/pelletier/go-toml/v2"
 	"gopkg.in/yaml.v2"
@@ -234,7 +237,8 @@ type Cfg struct {
 	ExcludePtrToContainer, ExcludeMapOfPtrToPrim bool
 }
 
-// TypeGen draws types; Excluded counts the shapes that were drawn and replaced (see Cfg).
+// TypeGen draws types; Excluded counts the shapes that were drawn and replaced (see Cfg),
+// and under "generated:<shape>" those same shapes when they are generated.
 type TypeGen struct {
 	t        *rapid.T
 	cfg      Cfg
@@ -326,7 +330,9 @@ func (g *TypeGen) typ(depth, ptrs int) *Type {
 			return &Type{Kind: rapid.SampledFrom(primKinds).Draw(g.t, "prim")}
 		}
 		el := g.typ(depth, ptrs+1)
-		if k := el.Deref().Kind; g.cfg.ExcludePtrToContainer && (k == reflect.Slice || k == reflect.Map) {
+		if k := el.Deref().Kind; (k == reflect.Slice || k == reflect.Map) && !g.cfg.ExcludePtrToContainer {
+			g.Excluded["generated:ptr-to-container"]++
+		} else if k == reflect.Slice || k == reflect.Map {
 			// DESIGN §3 D9 (a), (c): a pointer whose element is a map or a slice
 			g.Excluded["ptr-to-container"]++
 			return el
@@ -338,7 +344,9 @@ func (g *TypeGen) typ(depth, ptrs int) *Type {
 		return &Type{Kind: reflect.Slice, Elem: g.typ(depth+1, 0)}
 	default:
 		el := g.typ(depth+1, 0)
-		if g.cfg.ExcludeMapOfPtrToPrim && el.Kind == reflect.Ptr && el.Deref().IsPrim() {
+		if el.Kind == reflect.Ptr && el.Deref().IsPrim() && !g.cfg.ExcludeMapOfPtrToPrim {
+			g.Excluded["generated:map-of-ptr-to-prim"]++
+		} else if el.Kind == reflect.Ptr && el.Deref().IsPrim() {
 			// DESIGN §3 D9 (b): a map whose element is a pointer to a primitive
 			g.Excluded["map-of-ptr-to-prim"]++
 			el = el.Deref()
@@ -1076,7 +1084,7 @@ func RenderTOML(doc map[string]any) (b []byte, ok bool) {
 // ---------------------------------------------------------------- comparison
 
 // EqualData is reflect.DeepEqual with nil and empty slices/maps identified, and a nil
-// pointer identified with a pointer to a value that holds no data (emptyData).
+// pointer to a container identified with a pointer to an empty container.
 func EqualData(a, b reflect.Value) bool {
 	if a.Type() != b.Type() {
 		return false
@@ -1084,7 +1092,9 @@ func EqualData(a, b reflect.Value) bool {
 	switch a.Kind() {
 	case reflect.Ptr:
 		if a.IsNil() || b.IsNil() {
-			return a.IsNil() && b.IsNil()
+			// a nil pointer to a container and a pointer to an empty container hold the
+			// same data (nil and empty containers are identified)
+			return (a.IsNil() || emptyContainerPtr(a)) && (b.IsNil() || emptyContainerPtr(b))
 		}
 		return EqualData(a.Elem(), b.Elem())
 	case reflect.Struct:
@@ -1121,12 +1131,36 @@ func EqualData(a, b reflect.Value) bool {
 	return reflect.DeepEqual(a.Interface(), b.Interface())
 }
 
+// emptyContainerPtr: a non-nil pointer (chain) that ends at an empty slice or map.
+func emptyContainerPtr(v reflect.Value) bool {
+	for v.Kind() == reflect.Ptr {
+		if v.IsNil() {
+			return false
+		}
+		v = v.Elem()
+	}
+	return (v.Kind() == reflect.Slice || v.Kind() == reflect.Map) && v.Len() == 0
+}
+
+func emptyContainerDoc(doc any) bool {
+	switch x := doc.(type) {
+	case []any:
+		return len(x) == 0
+	case map[string]any:
+		return len(x) == 0
+	}
+	return false
+}
+
 // Contains checks that every datum of a valid document doc (struct keys matched
 // case-insensitively, map keys verbatim) is found at its place in the loaded value v of
 // type tp.  It says nothing about fields the document does not mention.
 func Contains(doc any, v reflect.Value, tp *Type, path string) error {
 	for tp.Kind == reflect.Ptr {
 		if v.IsNil() {
+			if k := tp.Deref().Kind; (k == reflect.Slice || k == reflect.Map) && emptyContainerDoc(doc) {
+				return nil // nil and empty containers are identified
+			}
 			return fmt.Errorf("%s: nil pointer, document has %v", path, doc)
 		}
 		v, tp = v.Elem(), tp.Elem
@@ -1212,4 +1246,165 @@ func Contains(doc any, v reflect.Value, tp *Type, path string) error {
 		}
 	}
 	return nil
+}
+
+// ---------------------------------------------------------------- concurrent loads
+
+// Pair is one (type, document) pair with its three renderings.
+type Pair struct {
+	T       *Type
+	Doc     map[string]any
+	Muts    []string
+	J, Y, M []byte
+}
+
+func (p *Pair) String() string {
+	j := p.J
+	if len(j) > 400 {
+		j = append(append([]byte{}, j[:400]...), "…"...)
+	}
+	return fmt.Sprintf("type %s mutations %v JSON %s", p.T, p.Muts, j)
+}
+
+// PadKey is the unknown key that carries padding in the concurrent units.
+const PadKey = "zzPad"
+
+// GenPair draws a pair; ok=false when the document is not representable in all three
+// formats.  pad > 0 adds an unknown key holding an array of pad strings (they mention id,
+// so that the documents of one case differ): an unknown key changes neither verdict nor
+// value, but it travels through the YAML/TOML -> JSON conversion and makes the documents
+// of a case differ widely in size.
+func GenPair(t *rapid.T, cfg Cfg, id, pad int) (*Pair, bool) {
+	tp, _ := GenStruct(t, cfg)
+	g := &DocGen{T: t, Mutate: rapid.IntRange(0, 9).Draw(t, "mode") >= 7}
+	p := &Pair{T: tp}
+	p.Doc = g.Doc(tp)
+	p.Muts = g.Muts
+	if pad > 0 {
+		arr := make([]any, pad)
+		for i := range arr {
+			arr[i] = fmt.Sprintf("pad-%03d-%05d", id, i)
+		}
+		p.Doc[PadKey] = arr
+	}
+	var okj, oky, okm bool
+	p.J, okj = RenderJSON(p.Doc, false)
+	p.Y, oky = RenderYAML(p.Doc)
+	p.M, okm = RenderTOML(p.Doc)
+	return p, okj && oky && okm
+}
+
+// ConcLoader loads pair number k (k identifies per-pair resources such as files).
+type ConcLoader struct {
+	Name string
+	Load func(p *Pair, k int) (reflect.Value, error)
+}
+
+func sameResult(v1 reflect.Value, e1 error, v2 reflect.Value, e2 error) string {
+	switch {
+	case (e1 == nil) != (e2 == nil):
+		return fmt.Sprintf("verdicts differ: %v / %v", errText(e1), errText(e2))
+	case e1 == nil && !reflect.DeepEqual(v1.Interface(), v2.Interface()):
+		return fmt.Sprintf("values differ: %s / %s", valText(v1), valText(v2))
+	}
+	return ""
+}
+
+func errText(err error) string {
+	if err == nil {
+		return "<nil>"
+	}
+	s := err.Error()
+	if len(s) > 300 {
+		s = s[:150] + " … " + s[len(s)-150:]
+	}
+	return s
+}
+
+func valText(v reflect.Value) string {
+	s := fmt.Sprintf("%+v", v.Elem().Interface())
+	if len(s) > 400 {
+		s = s[:400] + "…"
+	}
+	return s
+}
+
+// RunConcurrent first loads every pair with every loader sequentially (all loaders must
+// agree with loaders[0]; that result is the pair's expected result), then starts one
+// goroutine per pair; each loads its own pair rounds times with every loader and every
+// result must equal the pair's expected result: what a load yields does not depend on
+// what else the process is loading.  gc adds a goroutine that forces garbage collections
+// (preemption at arbitrary points, pool victim rotation) while the loads run.
+func RunConcurrent(pairs []*Pair, loaders []ConcLoader, rounds int, gc bool) (loads int64, failures []string) {
+	type result struct {
+		v   reflect.Value
+		err error
+	}
+	want := make([]result, len(pairs))
+	for k, p := range pairs {
+		for i, l := range loaders {
+			v, err := l.Load(p, k)
+			loads++
+			if i == 0 {
+				want[k] = result{v, err}
+				continue
+			}
+			if d := sameResult(want[k].v, want[k].err, v, err); d != "" {
+				failures = append(failures, fmt.Sprintf("sequential: %s vs %s: %s\n%s", loaders[0].Name, l.Name, d, p))
+			}
+		}
+	}
+	if len(failures) > 0 {
+		return loads, failures
+	}
+	var (
+		wg    sync.WaitGroup
+		mu    sync.Mutex
+		stop  atomic.Bool
+		done  atomic.Bool
+		total atomic.Int64
+	)
+	var gcwg sync.WaitGroup
+	if gc {
+		gcwg.Add(1)
+		go func() {
+			defer gcwg.Done()
+			for !done.Load() {
+				runtime.GC()
+				runtime.Gosched()
+			}
+		}()
+	}
+	start := make(chan struct{})
+	for k := range pairs {
+		wg.Add(1)
+		go func(k int) {
+			defer wg.Done()
+			p := pairs[k]
+			<-start
+			for r := 0; r < rounds && !stop.Load(); r++ {
+				for i := range loaders {
+					l := loaders[(i+k+r)%len(loaders)]
+					v, err := l.Load(p, k)
+					total.Add(1)
+					if d := sameResult(want[k].v, want[k].err, v, err); d != "" {
+						mu.Lock()
+						if len(failures) < 4 {
+							failures = append(failures, fmt.Sprintf(
+								"concurrent load %d of pair %d with %s differs from the sequential result (sequential / concurrent): %s\n%s",
+								r, k, l.Name, d, p))
+						}
+						mu.Unlock()
+						stop.Store(true)
+						return
+					}
+				}
+			}
+		}(k)
+	}
+	close(start)
+	wg.Wait()
+	done.Store(true)
+	gcwg.Wait()
+	return loads + total.Load(), failures
 }
